@@ -343,6 +343,49 @@ Fixpoint all_named (t : call) : bool :=
 (* every declared schema name is a key of parsed_schemas *)
 Definition all_present (declared : list str) (c : ctx) : bool := forallb (registered c) declared.
 
+(* ---------- "every declared schema name is present": the contract between build_schemas and the parser body ---------- *)
+Fixpoint no_unreg (t : call) : bool :=
+  match t with
+  | Unreg _ => false
+  | Reg _ => true
+  | Call _ _ body => (fix go (l : list call) : bool := match l with [] => true | x :: r => no_unreg x && go r end) body
+  end.
+
+(* build_schemas' post-condition accepts the raw name or its sanitised form [alt n] as key *)
+Definition present (alt : str -> str) (c : ctx) (n : str) : bool := registered c n || registered c (alt n).
+
+Definition before_top (c : ctx) (x : top) : ctx := match x with Plain _ => c | Fresh k _ => pop_state c k end.
+
+(* names visited by a top-level invocation that starts with no tracker state for the name (what build_schemas
+   arranges with schema_states.pop before every (re-)parse of a declared schema) *)
+Definition visits (c : ctx) (x : top) : option str :=
+  match top_call x with
+  | Call (Some n) _ _ => match state_of (before_top c x) n with NotStarted => Some n | _ => None end
+  | _ => None
+  end.
+
+(* THE CONTRACT WITH THE PARSER BODY (not provable from the skeleton; checked on every trace):
+   when such an invocation is told to CONTINUE, the body has registered the name (or its sanitised form)
+   by the time it reaches the `finally`. *)
+Definition top_contract (alt : str -> str) (c : ctx) (x : top) : bool :=
+  match top_call x with
+  | Call (Some n) allow body =>
+      match visits c x with
+      | Some _ =>
+          let (c1, a) := enter (Some n) (set_allow (frame_in (before_top c x) (Some n)) allow) in
+          match a with AContinue => present alt (run_list c1 body) n | _ => true end
+      | None => true
+      end
+  | _ => true
+  end.
+Fixpoint contract (alt : str -> str) (c : ctx) (l : list top) : bool :=
+  match l with [] => true | x :: r => top_contract alt c x && contract alt (run_top c x) r end.
+Fixpoint visited (c : ctx) (l : list top) : list str :=
+  match l with
+  | [] => []
+  | x :: r => (match visits c x with Some n => [n] | None => [] end) ++ visited (run_top c x) r
+  end.
+
 (* ---------- executable guards of the partial theorem ---------- *)
 (* F08b: the RETURN_EXISTING fall-through was taken somewhere (the schema is parsed a second time, exited
    twice and left NOT_STARTED) *)
